@@ -24,6 +24,14 @@ func VC19_ImageReadOnly() {
 		vsym.Assert(p.AppendSignature(vsym.BytesN("sig1", 8)) == nil, "append")
 	}
 	vsym.Begin(p, r)
+	// race-detector replays (only when the executor found a store into shared state): the operations
+	// run concurrently on the object as parsed, before anything else has touched it
+	vsym.Concurrent(
+		func() { p.Hash(crypto.SHA256) },
+		func() { p.Bytes() },
+		func() { p.Signatures() },
+		func() { io.ReadAll(p.Open()) },
+	)
 	h1 := p.Hash(crypto.SHA256)
 	b1 := p.Bytes()
 	s1, e1 := p.Signatures()
@@ -56,12 +64,5 @@ func VC19_ImageReadOnly() {
 	vsym.AssertBytesEq(o3, b1, "a second Open reader is independent of a partly drained one")
 	vsym.AssertBytesEq(append(head, tail...), b1, "a partly drained Open reader is unaffected by other read-only calls")
 	vsym.AssertReadOnly("image operations")
-	// the same operations for race-detector replays (run only when a store into shared state was found)
-	vsym.Concurrent(
-		func() { p.Hash(crypto.SHA256) },
-		func() { p.Bytes() },
-		func() { p.Signatures() },
-		func() { io.ReadAll(p.Open()) },
-	)
 	vsym.Reach("end")
 }
